@@ -238,6 +238,10 @@ def directed(hints, limit=24):
     bad = []
     for g, (cands, subj, labs, err, best), (txt, ts, latent, off, hist) in zip(got, want, meta):
         parts = g.split(" ## ")
+        if len(parts) == 5 and parts[3].lower().startswith("unmodelled"):
+            # the model has no answer here (a production or construct it does not cover, or its fuel): that is a gap of the
+            # model, not an input on which the property fails
+            continue
         if len(parts) != 5 or parts[0] != cands or parts[3] != err:
             mc = parts[0].split(";;") if len(parts) == 5 else [g]
             ic = cands.split(";;")
